@@ -13,11 +13,6 @@ type replayResult struct {
 	confirmed bool
 }
 
-// tryReplay turns a solver model into a concrete run against the real code where a recipe exists.
-// Model-to-test replay is not automated: models are over heap arrays and ghost state. The replay file carries the model.
-func tryReplay(prop string, o *Obligation) *replayResult {
-	return nil
-}
 
 func runReplay(path string) int {
 	b, err := os.ReadFile(path)
